@@ -19,7 +19,7 @@ pub struct Case {
     pub origin_step: usize,
 }
 
-pub const DIRS: [(f64, f64); 14] = [
+pub const DIRS: [(f64, f64); 17] = [
     (1.0, 0.0),
     (0.0, 1.0),
     (-3.0, 0.0),
@@ -34,6 +34,10 @@ pub const DIRS: [(f64, f64); 14] = [
     (7.0, 3.0),
     (1.0, 1e-9),
     (1e-9, -1.0),
+    // zero components carrying a sign: the negation of (0, 1), the reverse of a normal (0, 1)
+    (-0.0, 1.0),
+    (1.0, -0.0),
+    (-0.0, -2.5),
 ];
 
 /// Independent closed form for the line/edge intersection: parameter on the line and on the edge
@@ -440,7 +444,7 @@ pub fn cases(tier: Tier) -> Vec<Case> {
 
 pub fn run(tier: Tier) -> i32 {
     let mut cx = Ctx::new("C06", tier, "exploration");
-    cx.rule = "every vertex sequence over the 4x4 lattice up to the length bound, and 7 structured large families x 15 sizes (5..5000 edges: every QBVH occupancy and depth), x origins on a grid (inside, outside, behind, on vertices) x 14 directions (axis-parallel, zero components, non-unit, both signs, nearly parallel to edges); plus wavy polygons of 5..24 (thorough 40) inexact vertices x 3 (5) placements against every line through two of their vertices from 4 origins; oracle = the property's own definition (sort+dedup of the per-edge routine over every edge) plus an independent closed form. distinct = distinct polylines".into();
+    cx.rule = "every vertex sequence over the 4x4 lattice up to the length bound, and 7 structured large families x 15 sizes (5..5000 edges: every QBVH occupancy and depth), x origins on a grid (inside, outside, behind, on vertices) x 17 directions (axis-parallel, zero components of either sign, zero components, non-unit, both signs, nearly parallel to edges); plus wavy polygons of 5..24 (thorough 40) inexact vertices x 3 (5) placements against every line through two of their vertices from 4 origins; oracle = the property's own definition (sort+dedup of the per-edge routine over every edge) plus an independent closed form. distinct = distinct polylines".into();
     cx.bounds = json!({"lattice": 4, "seq_len": tier.pick(4, 5), "origin_subsampling_longest": tier.pick(3, 5), "directions": DIRS.len(), "large_sizes": gen::LARGE_SIZES});
     cx.require(&["line exactly through an end vertex", "lattice polyline", "structured large polyline", "line misses", "two crossings", "other crossing count", "axis-parallel line", "large outline with shallow lines", "polygon with inexact vertices against lines through two of them", "polygon with edges below a micron"]);
     cx.assume("an unmatched parameter is gray only when the contact is at a vertex whose two neighbours lie on the same side of the line (graze) or at an end vertex; a transversal crossing through a vertex must be reported");
